@@ -235,6 +235,16 @@ Theorem preemph_int_first_sample : forall (c : val) d z zs ip ax r,
 Proof. exact preemph_int_first_l. Qed.
 Print Assumptions preemph_int_first_sample.
 
+(* ... and of a float32 / float16 signal the narrow -> float64 -> narrow round trip *)
+Theorem preemph_narrow_first_sample : forall (c : val) d (f : b64) xs ip ax r,
+  axis_ok ax = true -> is_finite f = true ->
+  (d = F32 /\ generic_format radix2 (SpecFloat.fexp 24 128) (B2R f) /\ Rabs (B2R f) < bpow radix2 128) \/
+  (d = F16 /\ generic_format radix2 (SpecFloat.fexp 11 16) (B2R f) /\ Rabs (B2R f) < bpow radix2 16) ->
+  exists y, out_arr (run nops ngen c ip ax preemph_prog (Build_arr d (VF f :: xs)) r)
+            = Some (Build_arr d (VF f :: y)).
+Proof. exact preemph_narrow_first_l. Qed.
+Print Assumptions preemph_narrow_first_sample.
+
 (* coefficient +0.0 or -0.0: float64 Dither returns the signal (as numbers) *)
 Theorem dither_f64_zero_coeff : forall (sz : bool) ip ax x g, axis_ok ax = true ->
   length g = length x ->
@@ -280,6 +290,18 @@ Theorem dither_f64_value : forall (cf : b64) (x g : list b64) ip ax i,
     vR (nth i y (VF (B754_zero false))) = rnd64 (B2R xi + rnd64 (B2R cf * B2R gi)).
 Proof. exact dither_f64_value_l. Qed.
 Print Assumptions dither_f64_value.
+
+(* FINDING (integer dtypes): the returned noise is NOT zero-mean / signal
+   independent, because the cast back truncates toward zero: deviates +1/2 and
+   -1/2 (coeff 1) change the int16 sample 1000 by 0 and -1, the sample -1000 by
+   +1 and 0 *)
+Theorem dither_int_noise_biased_refuted :
+  let c := VF (mk64 1 0) in
+  let run1 x g := out_data (run nops ngen c false None dither_prog (Build_arr I16 [VI x]) [VF g]) in
+  run1 1000%Z (mk64 1 (-1)) = [RInt 1000] /\ run1 1000%Z (mk64 (-1) (-1)) = [RInt 999] /\
+  run1 (-1000)%Z (mk64 1 (-1)) = [RInt (-999)] /\ run1 (-1000)%Z (mk64 (-1) (-1)) = [RInt (-1000)].
+Proof. exact dither_int_noise_biased_l. Qed.
+Print Assumptions dither_int_noise_biased_refuted.
 
 (* ---------------- sample moments of the noise (reals) ---------------- *)
 Theorem dither_moments : forall RS (G : rngm R RS) c ip ax d x r y, axis_ok ax = true ->
